@@ -241,3 +241,25 @@ Proof.
   destruct (six_histories true toy_hp toy_ho toy_hd toy_shp toy_shs ops u su C Hf Ho n) as (u' & su' & A & B & _ & D).
   exists u', su'. auto.
 Qed.
+
+(* ---------- the invariants are needed ---------- *)
+From Coq Require Import String.
+Local Open Scope string_scope.
+(* a pair related by corr whose Standard's record is not `sane` - "http:/p" without a host, which no
+   parser or setter of the Standard produces: the code refuses http -> https (has_host() is false),
+   the Standard carries it out; the assignment is outside Known_C07 *)
+Definition nosane_u : url := mkUrl (str "http:/p") 4 5 5 5 HI_None None 5 None None.
+Definition nosane_su : spec_url := mkSUrl (str "http") [] [] None None (SPList [str "p"]) None None.
+
+Theorem protocol_needs_sane :
+  corr true toy_shs nosane_u nosane_su
+  /\ known_c07 nosane_u QProtocol (str "https") = 0
+  /\ exists u' su',
+       model_set true toy_hp toy_ho toy_hd QProtocol nosane_u (str "https") = Some u'
+       /\ spec_step toy_shp QProtocol nosane_su (str "https") = Some su'
+       /\ toy_api_agree u' su' = false.
+Proof.
+  split; [apply corr_b_sound; vm_compute; reflexivity|].
+  split; [vm_compute; reflexivity|].
+  eexists. eexists. split; [vm_compute; reflexivity|]. split; [vm_compute; reflexivity|]. vm_compute. reflexivity.
+Qed.
